@@ -144,6 +144,15 @@ def run_case(case):
                 args[3] = dd
             else:
                 args[4] = dd
+        overlap = False
+        if call.model == 'SIR' and case['seed'] % 5 == 0 and isinstance(kw.get('initial_infecteds'), list) and len(kw['initial_infecteds']) >= 2:
+            # an inconsistent request (a node listed both as infected and as recovered; the docstrings say there is no consistency test):
+            # whatever the library makes of it, the caller's containers stay as they are
+            ir = kw.get('initial_recovereds')
+            ir = list(ir) if isinstance(ir, (list, tuple, set, frozenset)) else []
+            kw['initial_recovereds'] = ir + [kw['initial_infecteds'][-1]]
+            overlap = True
+            bump(res, 'overlapping_initial_sets_runs')
         mode = 'full' if call.full else 'arrays'
     elif kind == 'ode':
         call = odereg.build(case)
@@ -193,6 +202,9 @@ def run_case(case):
             with np.errstate(all='ignore'):
                 out1 = f(*args, **kw)
     except Exception as e:
+        if kind == 'sim' and overlap:
+            bump(res, 'overlapping_initial_sets_rejected')       # rejecting the inconsistent request is fine
+            return res
         viol(res, '%s|first_call|exception:%s' % (tag, simcase.exc_key(e)), {'err': repr(e)[:200]})
         return res
     if any('ODEint' in str(w.category) or 'lsoda' in str(w.message).lower() for w in wl):
